@@ -6,6 +6,8 @@ import InToto.Driver.Misc
 import InToto.Driver.Cert
 import InToto.Driver.Verify
 import InToto.Driver.Sign
+import InToto.Driver.Record
+import InToto.Driver.Pipes
 import InToto.Model.Glob
 import InToto.Spec.Glob
 
@@ -53,6 +55,12 @@ def handle (j : Json) : Json :=
   | some r => r
   | none =>
   match handleSign op a with
+  | some r => r
+  | none =>
+  match handleRecord op a q with
+  | some r => r
+  | none =>
+  match handlePipes op a with
   | some r => r
   | none => Json.mkObj [("error", Json.str ("unknown op " ++ op))]
 
